@@ -370,7 +370,7 @@ def run(tier: str, seed: int) -> Result:
                 w.close()
         # backpressure: the socket cannot take (all of) the bytes, asyncio queues what it was handed and flushes it later
         for noise in (False, True):
-            for mode in ("blocked", "partial-1", "partial-9", "blocked-after-first"):
+            for mode in ("blocked", "partial-1", "partial-9", "blocked-after-first", "flood"):
                 w = ConnWorld(noise=noise)
                 try:
                     w.connect_fully()
@@ -379,6 +379,12 @@ def run(tier: str, seed: int) -> Result:
                     f0 = len(w.sent_frames())
                     batches = [(pb.PingRequest(),), (pbgen.populate(pb.LightCommandRequest(), 3), pb.SubscribeStatesRequest()),
                                (pbgen.populate(pb.BluetoothGATTWriteRequest(), 5),), (pb.DeviceInfoRequest(), pb.ListEntitiesRequest(), pb.PingRequest())]
+                    if mode == "flood":
+                        # the device stops reading and more than the transport's high-water mark (64 KiB) is queued: asyncio tells the
+                        # protocol to pause writing; what is sent meanwhile still reaches the device, once, in order
+                        sock.writable = False
+                        big = pb.BluetoothGATTWriteRequest(address=1, handle=2, data=bytes(30000))
+                        batches = [(big,), (big,), (big,)] + batches + [(big,), (pb.PingRequest(),)]
                     if mode == "blocked":
                         sock.writable = False
                     elif mode.startswith("partial"):
